@@ -83,3 +83,276 @@ def replay_peeking(method):
                             input=dict(back=back, iterator_rest=seq[pos:], sent=sent, item=item), observed=repr(out), required='; '.join(bad))
         return dict(confirmed=False)
     return replay
+
+
+# ================================================================================================ chaining / remembering
+import z3
+from pyvc.vals import ListV, SeqV, IntV, RefV, ExcV, IntSeq, NONE, Unsupported
+from pyvc.pure import fresh, to_int, const_of
+from pyvc.spec import Custom
+
+ArrSeq = z3.ArraySort(z3.IntSort(), IntSeq)
+FLAT = z3.Function('FLAT', ArrSeq, z3.IntSort(), IntSeq)      # FLAT(a, k) = a[k-1] ++ a[k-2] ++ ... ++ a[0]  (the order chained input is consumed)
+
+
+def flat_axioms():
+    a = z3.Const('fa', ArrSeq)
+    k = z3.Int('fk')
+    return [z3.ForAll([a], FLAT(a, 0) == z3.Empty(IntSeq)),
+            z3.ForAll([a, k], z3.Implies(k > 0, FLAT(a, k) == z3.Concat(z3.Select(a, k - 1), FLAT(a, k - 1))))]
+
+
+class ChainV(ListV):
+    """the list `_chain` of chained iterables: an array of byte sequences and a length"""
+    __slots__ = ('arr',)
+
+    def __init__(self, arr, n):
+        ListV.__init__(self, n, lambda i: SeqV(z3.Select(arr, i), 'list'), tag='chain')
+        self.arr = arr
+
+
+def chain_sort(eng, name, st):
+    arr = z3.Const(name + '.arr', ArrSeq)
+    n = z3.Int(name + '.len')
+    st = st.clone()
+    st.pc.append(n >= 0)
+    st.pc.extend(flat_axioms())
+    rid = eng.new_id()
+    st.heap[(rid, 'val')] = ChainV(arr, n)
+    eng.tracked_refs.add(rid)
+    return RefV(rid, 'list'), st
+
+
+def chain_insert(eng, ref, cur, args, st, n, store):
+    """_chain.insert(0, x): a new array with x in front (index 0 is consumed last).  The consequence
+    FLAT(a', n+1) == FLAT(a, n) ++ x is the lemma `flat-insert` (proved by induction in flat_lemma) applied here."""
+    if not isinstance(cur, ChainV) or const_of(to_int(args[0])) != 0:
+        raise Unsupported('insert on %r' % (cur,))
+    x = args[1]
+    if not isinstance(x, SeqV):
+        raise Unsupported('chained iterable %r' % (x,))
+    a2 = fresh('chain', ArrSeq)
+    i = fresh('ci')
+    s2 = store(st, ChainV(a2, cur.n + 1))
+    s2.pc += [z3.Select(a2, 0) == x.t, z3.ForAll([i], z3.Implies(i >= 0, z3.Select(a2, i + 1) == z3.Select(cur.arr, i))),
+              FLAT(a2, cur.n + 1) == z3.Concat(FLAT(cur.arr, cur.n), x.t)]
+    yield s2, NONE
+
+
+def chain_pop(eng, ref, cur, args, st, n, store):
+    if not isinstance(cur, ChainV) or args:
+        raise Unsupported('pop on %r' % (cur,))
+    line = getattr(n, 'lineno', None)
+    for s, ok in eng.fork(st, cur.n > 0):
+        if ok:
+            yield store(s, ChainV(cur.arr, cur.n - 1)), SeqV(z3.Select(cur.arr, cur.n - 1), 'list')
+        else:
+            yield s, ExcV('IndexError', 'pop from empty list', line)
+
+
+def chain_havoc(eng, s, cur, fld):
+    v = s.heap[(cur.id, 'val')]
+    if not isinstance(v, ChainV):
+        return False
+    n2 = fresh(fld + '.len')
+    s.pc.append(n2 >= 0)
+    s.heap[(cur.id, 'val')] = ChainV(fresh(fld + '.arr', ArrSeq), n2)
+    return True
+
+
+def flat_fn(pe, c):
+    if not isinstance(c, ChainV):
+        raise Unsupported('flat() of %r' % (c,))
+    return SeqV(FLAT(c.arr, c.n), 'list')
+
+
+def flat_lemma(repo):
+    """FLAT(a', k+1) == FLAT(a, k) ++ x for a' = x inserted in front of a: induction over k"""
+    a, a2 = z3.Const('la', ArrSeq), z3.Const('la2', ArrSeq)
+    x = z3.Const('lx', IntSeq)
+    k, i = z3.Int('lk'), z3.Int('li')
+    defs = flat_axioms() + [z3.Select(a2, 0) == x, z3.ForAll([i], z3.Implies(i >= 0, z3.Select(a2, i + 1) == z3.Select(a, i)))]
+    return [('flat-insert-base', defs, FLAT(a2, 1) == z3.Concat(FLAT(a, 0), x)),
+            ('flat-insert-step', defs + [k >= 0, FLAT(a2, k + 1) == z3.Concat(FLAT(a, k), x)], FLAT(a2, k + 2) == z3.Concat(FLAT(a, k + 1), x))]
+
+
+CHAIN_FIELDS = {'_back': 'MutIntList', '_iter': 'Iter', '_sent': 'Int', '_chain': chain_sort}
+CHAIN_HINTS = dict(list_insert=chain_insert, list_pop=chain_pop, havoc_list=chain_havoc, funcs={'flat': flat_fn})
+
+
+def chaining_specs():
+    chain = Spec('chaining.chain', (F, 'chaining.chain'), params={'iterable': 'IntList'}, fields=CHAIN_FIELDS,
+                 ensures=[('chained input is delivered after everything already pending', 'flat(self._chain) == old(flat(self._chain)) + iterable'),
+                          ('nothing else changes', 'self._back == old(self._back) and rest(self._iter) == old(rest(self._iter)) and self._sent == old(self._sent)')],
+                 raises={}, modifies=['self._chain'], hints=CHAIN_HINTS, returns='None',
+                 note='uses the lemma flat-insert (proved by induction as C02/lemma[flat-insert-*])')
+    defs = dict(B='old(self._back)', R='old(rest(self._iter))', C='old(flat(self._chain))')
+    nxt = Spec('chaining.__next__', (F, 'chaining.__next__'), params={}, fields=CHAIN_FIELDS, defs=defs,
+               loops={0: Loop(invariant=[('drained', 'len(self._back) == 0 and len(rest(self._iter)) == 0 and len(B) == 0 and len(R) == 0'),
+                                         ('chained input intact', 'flat(self._chain) == C'),
+                                         ('sent', 'self._sent == old(self._sent)')],
+                              variant='len(self._chain)', modifies=['self._iter', 'self._chain'])},
+               ensures=[('delivers the next symbol of the pending stream rev(back) ++ rest(iter) ++ chained',
+                         'result == (B[len(B) - 1] if len(B) > 0 else (R[0] if len(R) > 0 else C[0]))'),
+                        ('consumes exactly that symbol',
+                         'implies(len(B) > 0, self._back == B[:len(B) - 1] and rest(self._iter) == R and flat(self._chain) == C) and '
+                         'implies(len(B) == 0 and len(R) > 0, self._back == B and rest(self._iter) == R[1:] and flat(self._chain) == C) and '
+                         'implies(len(B) == 0 and len(R) == 0, len(self._back) == 0 and rest(self._iter) + flat(self._chain) == C[1:])'),
+                        ('sent counts net symbols', 'self._sent == old(self._sent) + 1'),
+                        ('only when something is pending', 'len(B) > 0 or len(R) > 0 or len(C) > 0')],
+               raises={'StopIteration': 'len(B) == 0 and len(R) == 0 and len(C) == 0'},
+               refuses=[('empty', 'len(B) == 0 and len(R) == 0 and len(C) == 0')], accepts=[('pending', 'len(B) > 0 or len(R) > 0 or len(C) > 0')],
+               modifies=['self._back', 'self._sent', 'self._iter', 'self._chain'], hints=CHAIN_HINTS, returns='Int')
+    chain.replay, nxt.replay = replay_chaining('chain'), replay_chaining('__next__')
+    return [chain, nxt, Custom('lemma', flat_lemma, note='induction behind chaining.chain: inserting in front of the list appends to the flattened pending input')]
+
+
+def replay_chaining(method):
+    def one(back, rest, chain, sent):
+        import cpppo
+        c = cpppo.chaining(list(rest))
+        c._back = list(back)
+        c._sent = sent
+        for blk in chain:                  # chain() in order: the first chained block is consumed first
+            c.chain(list(blk))
+        pending = list(reversed(back)) + list(rest) + [x for blk in chain for x in blk]
+        try:
+            if method == 'chain':
+                out = ('return', c.chain([41, 42]))
+                want_pending, want_sent, want_res = pending + [41, 42], sent, None
+            else:
+                out = ('return', next(c))
+                want_pending, want_sent, want_res = pending[1:], sent + 1, (pending[0] if pending else None)
+        except StopIteration:
+            out = ('raise', 'StopIteration')
+            want_pending, want_sent, want_res = pending, sent, None
+        got_sent = c._sent
+        got_pending = []
+        try:
+            while len(got_pending) < 100:
+                got_pending.append(next(c))
+        except StopIteration:
+            pass
+        bad = []
+        if method == '__next__' and (out[0] == 'raise') != (not pending):
+            bad.append('StopIteration exactly when nothing is pending (got %r)' % (out,))
+        if out[0] == 'return' and out[1] != want_res:
+            bad.append('result %r, expected %r' % (out[1], want_res))
+        if got_pending != want_pending:
+            bad.append('pending stream %r, expected %r' % (got_pending, want_pending))
+        if got_sent != want_sent:
+            bad.append('sent %r, expected %r' % (got_sent, want_sent))
+        return out, bad
+
+    def replay(model, obligation):
+        from .util import time_limit, Timeout
+        cands = [([], [], [], 0), ([1], [], [[5]], 2), ([], [3, 4], [[5, 6], [7]], 1), ([], [], [[5, 6], [], [7]], 0), ([], [], [[], []], 4),
+                 ([2, 1], [3], [[9]], 0), ([], [], [[], [8]], 0)]
+        for back, rest, chain, sent in cands:
+            inp = dict(back=back, iterator_rest=rest, chained=chain, sent=sent)
+            try:
+                with time_limit(2):
+                    out, bad = one(back, rest, chain, sent)
+            except Timeout:
+                out, bad = 'no result within 2 s', ['terminates']
+            except Exception as e:
+                out, bad = 'raised %s' % type(e).__name__, ['no exception other than StopIteration']
+            if bad:
+                return dict(confirmed=True, function='cpppo.automata.chaining.' + method, input=inp, observed=repr(out), required='; '.join(bad))
+        return dict(confirmed=False)
+    return replay
+
+
+REM_FIELDS = dict(CHAIN_FIELDS, memory='MutIntList')
+
+
+def replay_remembering(method):
+    def one(back, rest, chain, memory):
+        import cpppo
+        c = cpppo.remembering(list(rest))
+        c._back = list(back)
+        c._sent = 10
+        c.memory = list(memory)
+        for blk in chain:
+            c.chain(list(blk))
+        pending = list(reversed(back)) + list(rest) + [x for blk in chain for x in blk]
+        bad = []
+        out = None
+        if method == 'forget':
+            c.forget()
+            want_pending, want_mem, want_sent = pending, [], 10
+        elif method == 'push':
+            item = memory[-1] if memory else 77
+            c.push(item)
+            want_pending, want_mem, want_sent = [item] + pending, list(memory[:-1]), 9
+        else:
+            try:
+                out = next(c)
+                want_pending, want_mem, want_sent = pending[1:], list(memory) + [pending[0]] if pending else None, 11
+                if not pending or out != pending[0]:
+                    bad.append('result %r, expected the first of %r' % (out, pending))
+            except StopIteration:
+                out = 'StopIteration'
+                want_pending, want_mem, want_sent = pending, list(memory), 10
+                if pending:
+                    bad.append('StopIteration although %r is pending' % (pending,))
+        got_mem, got_sent = list(c.memory), c._sent
+        c.memory = []
+        got_pending = []
+        try:
+            while len(got_pending) < 100:
+                got_pending.append(next(c))
+        except StopIteration:
+            pass
+        if got_pending != want_pending:
+            bad.append('pending stream %r, expected %r' % (got_pending, want_pending))
+        if got_mem != want_mem:
+            bad.append('memory %r, expected %r' % (got_mem, want_mem))
+        if got_sent != want_sent:
+            bad.append('sent %r, expected %r' % (got_sent, want_sent))
+        return out, bad
+
+    def replay(model, obligation):
+        from .util import time_limit, Timeout
+        cands = [([], [], [], []), ([1], [], [[5]], [1, 2]), ([], [3, 4], [[5, 6], [7]], [9]), ([2, 1], [3], [[9]], []), ([], [], [[], [8]], [4])]
+        for back, rest, chain, memory in cands:
+            inp = dict(back=back, iterator_rest=rest, chained=chain, memory=memory)
+            try:
+                with time_limit(2):
+                    out, bad = one(back, rest, chain, memory)
+            except Timeout:
+                out, bad = 'no result within 2 s', ['terminates']
+            except Exception as e:
+                out, bad = 'raised %s' % type(e).__name__, ['no exception']
+            if bad:
+                return dict(confirmed=True, function='cpppo.automata.remembering.' + method, input=inp, observed=repr(out), required='; '.join(bad))
+        return dict(confirmed=False)
+    return replay
+
+
+def remembering_specs():
+    chain, nxt, _ = chaining_specs()
+    push = peeking_specs()[0]
+    forget = Spec('remembering.forget', (F, 'remembering.forget'), params={}, fields=REM_FIELDS,
+                  ensures=[('memory cleared', 'len(self.memory) == 0'),
+                           ('the pending input is untouched', 'self._back == old(self._back) and rest(self._iter) == old(rest(self._iter)) and '
+                                                             'flat(self._chain) == old(flat(self._chain)) and self._sent == old(self._sent)')],
+                  raises={}, modifies=['self.memory'], hints=CHAIN_HINTS, returns='None', replay=replay_remembering('forget'),
+                  note='frame: only self.memory may be assigned (the push-back stack holds the first symbol of the next frame after a peek)')
+    rnext = Spec('remembering.__next__', (F, 'remembering.__next__'), params={}, fields=REM_FIELDS,
+                 defs=dict(B='old(self._back)', R='old(rest(self._iter))', C='old(flat(self._chain))'),
+                 ensures=[('delivers the next pending symbol', 'result == (B[len(B) - 1] if len(B) > 0 else (R[0] if len(R) > 0 else C[0]))'),
+                          ('and remembers it', 'self.memory == old(self.memory) + [result]'),
+                          ('sent counts net symbols', 'self._sent == old(self._sent) + 1')],
+                 raises={'StopIteration': 'len(B) == 0 and len(R) == 0 and len(C) == 0'},
+                 modifies=['self._back', 'self._sent', 'self._iter', 'self._chain', 'self.memory'],
+                 callees={'chaining.__next__': nxt}, hints=CHAIN_HINTS, returns='Int', replay=replay_remembering('__next__'))
+    rpush = Spec('remembering.push', (F, 'remembering.push'), params={'item': 'Int'}, fields=REM_FIELDS,
+                 defs=dict(M='old(self.memory)'),
+                 ensures=[('the pushed-back symbol is delivered next', 'self._back == old(self._back) + [item]'),
+                          ('sent counts net symbols', 'self._sent == old(self._sent) - 1'),
+                          ('it is taken back out of the memory', 'self.memory == (M[:len(M) - 1] if len(M) > 0 else M)')],
+                 raises={'AssertionError': 'len(M) > 0 and M[len(M) - 1] != item'},
+                 refuses=[('inconsistent push', 'len(M) > 0 and M[len(M) - 1] != item')], accepts=[('consistent', 'len(M) == 0 or M[len(M) - 1] == item')],
+                 modifies=['self._back', 'self._sent', 'self.memory'], callees={'peeking.push': push, 'push': push}, hints=CHAIN_HINTS, returns='None', replay=replay_remembering('push'))
+    return [forget, rnext, rpush]
